@@ -1,8 +1,9 @@
 /-
   C02 ties — the hand-written model functions of Model/Algebra.lean that have a straight-line SingleInterval core
   agree, on every input, with the kernels REGENERATED from /repo's location_impl.py on every run
-  (tools/translate.py → Gen/Kernels.lean): `SingleInterval.extend_absolute`, `shift_position`, `optimize_blocks`,
-  `_has_overlap_single_interval`, `_intersection_single_interval`.  A change of one of these Python methods that
+  (tools/translate.py → Gen/Kernels.lean): `SingleInterval.extend_absolute`, `extend_relative`, `shift_position`,
+  `optimize_blocks`, `reset_strand`, `reverse_strand`, `reverse`, `reset_parent`, `distance_to`,
+  `_distance_to_single_interval`, `_has_overlap_single_interval`, `_intersection_single_interval`.  A change of one of these Python methods that
   alters behaviour changes the generated definition and makes the corresponding theorem fail to compile.
 
   The generated kernels see a SingleInterval without its parent.  The model's parent bookkeeping is factored out by
@@ -84,5 +85,87 @@ theorem isectSS_from_kernels (a b : Blk) (ha : a.1 ≤ a.2) (hb : b.1 ≤ b.2) (
          | .ok true => (Gen.SingleInterval_intersection_single_interval (si a sa) (si b sb)).map some)
       (isectSS a sa b sb ms) :=
   Proofs.AlgTies.isectSS_from_kernels a b ha hb sa sb ms
+
+/-- T6: `SingleInterval.extend_relative` — generated kernel (its calls of the generated `Strand.assert_directional` and
+    `extend_absolute` included) = `Model.extendRelativeP` on a parent-less single interval: InvalidStrand for an
+    unstranded interval, arguments swapped on the minus strand, then T1. -/
+theorem extend_relative_tie (b : Blk) (st : Strand) (up down : Int) :
+    Agree siPLoc (Gen.SingleInterval_extend_relative (si b st) up down)
+      (extendRelativeP (.single b st, []) up down) :=
+  Proofs.AlgTies.extend_relative b st up down
+
+/-- T6': with a parent, `extend_relative` is the direction test followed by `extend_absolute` with that parent (T1'). -/
+theorem extend_relative_parent_factor (b : Blk) (st : Strand) (par : PKey) (up down : Int) :
+    extendRelativeP (.single b st, par) up down =
+      (assertDirectional st >>= fun _ =>
+        if st = .plus then extendAbsoluteP (.single b st, par) up down
+        else extendAbsoluteP (.single b st, par) down up) :=
+  Proofs.AlgTies.extend_relative_parent_factor b st par up down
+
+/-- T7a: `SingleInterval.reset_strand` — generated kernel = `Model.resetStrandP` on a parent-less single interval
+    (every pair of naturals: the re-run constructor test is part of both sides). -/
+theorem reset_strand_tie (b : Blk) (st ns : Strand) :
+    Agree siPLoc (Gen.SingleInterval_reset_strand (si b st) ns) (resetStrandP (.single b st, []) ns) :=
+  Proofs.AlgTies.reset_strand b st ns
+
+/-- T7b: on a constructor-valid interval the kernel never raises and is `Model.resetStrand` of Model/Location.lean
+    (the parent-less function used by `intersection` for the strand reset). -/
+theorem reset_strand_loc_tie (b : Blk) (hb : b.1 ≤ b.2) (st ns : Strand) :
+    Agree siLoc (Gen.SingleInterval_reset_strand (si b st) ns) (Model.resetStrand (.single b st) ns) :=
+  Proofs.AlgTies.reset_strand_loc b hb st ns
+
+/-- T7': parent bookkeeping of `reset_strand`. -/
+theorem reset_strand_parent_factor (b : Blk) (st ns : Strand) (par : PKey) :
+    resetStrandP (.single b st, par) ns =
+      (resetStrandP (.single b st, []) ns >>= fun r => checkEnd (b.2 : Int) par >>= fun _ => pure (r.1, par)) :=
+  Proofs.AlgTies.reset_strand_parent_factor b st ns par
+
+/-- T8a: `SingleInterval.reverse_strand` — generated kernel (calling the generated `Strand.reverse` and
+    `reset_strand`) = `Model.reverseStrandP`: same block on `Model.strandReverse st`. -/
+theorem reverse_strand_tie (b : Blk) (st : Strand) :
+    Agree siPLoc (Gen.SingleInterval_reverse_strand (si b st)) (reverseStrandP (.single b st, [])) :=
+  Proofs.AlgTies.reverse_strand b st
+
+/-- T8b: `SingleInterval.reverse` — generated kernel = `Model.reverseP` (for a single interval `reverse` is
+    `reverse_strand`). -/
+theorem reverse_tie (b : Blk) (st : Strand) :
+    Agree siPLoc (Gen.SingleInterval_reverse (si b st)) (reverseP (.single b st, [])) :=
+  Proofs.AlgTies.reverse b st
+
+/-- T8': parent bookkeeping of `reverse` / `reverse_strand`. -/
+theorem reverse_parent_factor (b : Blk) (st : Strand) (par : PKey) :
+    reverseP (.single b st, par) = reverseStrandP (.single b st, par) ∧
+    reverseStrandP (.single b st, par) =
+      (reverseStrandP (.single b st, []) >>= fun r => checkEnd (b.2 : Int) par >>= fun _ => pure (r.1, par)) :=
+  Proofs.AlgTies.reverse_parent_factor b st par
+
+/-- T9a: `SingleInterval.reset_parent` (parent-less view: the re-built interval) = the model's constructor
+    `Model.mkSingleP` on the same coordinates and strand … -/
+theorem reset_parent_tie (b : Blk) (st : Strand) :
+    Agree siPLoc (Gen.SingleInterval_reset_parent (si b st)) (mkSingleP b.1 b.2 st []) :=
+  Proofs.AlgTies.reset_parent b st
+
+/-- T9b: … hence the identity on every constructor-valid interval: `reset_parent(None)` in `Location.contains` never
+    raises and leaves start / end / strand unchanged, which is how `Model.containsP` treats it. -/
+theorem reset_parent_identity (b : Blk) (hb : b.1 ≤ b.2) (st : Strand) :
+    Gen.SingleInterval_reset_parent (si b st) = .ok (si b st) :=
+  Proofs.AlgTies.reset_parent_id b hb st
+
+/-- T10a: `SingleInterval._distance_to_single_interval` for the two distance types it implements: INNER is
+    `Model.innerSS` (0 when the generated overlap kernel holds, else the smaller end-to-start gap), OUTER is the
+    larger of `|start − other.end|`, `|end − other.start|` — the formula of `Model.distanceP`. Never raises. -/
+theorem distance_to_single_interval_tie (a b : Blk) (ha : a.1 ≤ a.2) (hb : b.1 ≤ b.2) (sa sb : Strand) :
+    Gen.SingleInterval_distance_to_single_interval (si a sa) (si b sb) .INNER = .ok ((innerSS a b : Nat) : Int) ∧
+    Gen.SingleInterval_distance_to_single_interval (si a sa) (si b sb) .OUTER =
+      .ok ((max (absDiff a.1 b.2) (absDiff a.2 b.1) : Nat) : Int) :=
+  Proofs.AlgTies.distance_to_single_interval a b ha hb sa sb
+
+/-- T10b: `SingleInterval.distance_to` between two parent-less single intervals, all four distance types
+    (`genDist` maps the model's `DistType` to the generated `DistanceType`): model and kernel both answer, with the same
+    (non-negative) value; neither raises. -/
+theorem distance_to_tie (a b : Blk) (ha : a.1 ≤ a.2) (hb : b.1 ≤ b.2) (sa sb : Strand) (ty : DistType) :
+    ∃ d : Nat, distanceP (.single a sa, []) (.single b sb, []) ty = .ok d ∧
+      Gen.SingleInterval_distance_to (si a sa) (si b sb) (genDist ty) = .ok (d : Int) :=
+  Proofs.AlgTies.distance_to a b ha hb sa sb ty
 
 end BioCantor.Props.C02Ties
